@@ -8,7 +8,7 @@ from vlib import core
 TRUST = ("Lean 4.33 kernel; axioms at most propext/Classical.choice/Quot.sound (audited per run); "
          "hand-written model tied to the C++ by the correspondence harness (differential, generator-bounded); ")
 MANIFEST = dict(
-  text=("Theorems (Props/C19.lean, 45) about an executable model of the importers and exporters. FIRST SENTENCE, FROM BYTES, for every "
+  text=("Theorems (Props/C19.lean, 46) about an executable model of the importers and exporters. FIRST SENTENCE, FROM BYTES, for every "
         "byte sequence and every configuration: the models of importSparseData (line splitting, PEG model of the record grammar, "
         "index-order check, dimension / zero-base / label logic, dense or sparse, classification or regression, any highestIndex and "
         "batch size) and of the three csvStringToData families (PEG model of the seven phrase_parse grammars, then row/label/batch "
@@ -36,7 +36,13 @@ MANIFEST = dict(
         "libsvm_export_import_bytes_all — for every dataset of binary64 values (regression labels, or class labels with oneMinusOne "
         "on/off, sortLabels off), sparse or dense, any batch size: importing the exported BYTES succeeds (no printed double is "
         "rejected: readBack_fmtG_some, no carry into 1e+309) and yields the same structure, indices, shape, batches and class labels "
-        "with every value = spirit's reading of its 6-digit rounding. "
+        "with every value = spirit's reading of its 6-digit rounding; and for exportCSV -> csvStringToData: csv_export_import_bytes — "
+        "for every non-empty dataset of binary64 values (unlabelled Data<RealVector>, and LabeledData<RealVector,RealVector> with the "
+        "labels first or last), every separator / comment character satisfying SepOk, scientific format on or off, field width 0, every "
+        "maximum batch size incl. 0: the exporter produces bytes, and importing them through the PEG model of the row grammar "
+        "(skipper, `%` lists, eol handling, trailing line feed) yields the dataset with the same element count, dimensions and batch "
+        "partition and every value = spirit's reading of its 11-digit rounding (readRows_csvRows / readRows_csvRegr in "
+        "Lemmas/ExportCsv.lean: the row reader reads a printed file token by token). "
         "The model — PEG-with-skipper interpreter, spirit 1.83's numeric lexers with every rounding of real_impl/scale, exact IEEE "
         "rounding, the post-parse logic, the exporters as BYTE printers (%.10e / %.10g / %.6g by exact decimal conversion, setw, inf/nan, "
         "label mappings, sortLabels, append) — is tied to the real code by exact line-by-line correspondence under ASan/UBSan + "
@@ -52,8 +58,10 @@ MANIFEST = dict(
        "(spirit's excess-digit path, not modelled) and, for the float scalar reader, anything but plain integers of <= 7 digits run for "
        "memory safety + oracle only; the formatting model fmtE/fmtG itself (= what iostream prints) is tied by exact correspondence, not "
        "proved; what IS proved is that the lexer model reads the printer model's bytes back as stated. Byte-level END-TO-END is proved for "
-       "exportSparseData/importSparseData; for exportCSV/csvStringToData the composition of the per-token byte-level theorems through the "
-       "PEG row/record grammars is correspondence + oracle (ops rt, xcsv), the theorems being token level + per token + character set. "
+       "exportSparseData/importSparseData (sortLabels off) and for exportCSV/csvStringToData with unlabelled data and vector labels, "
+       "separator not white space, field width 0; for CSV class labels (label grammars, LAST_COLUMN record loop), white-space "
+       "separators and setw padding the composition through the PEG grammars is correspondence + oracle (ops rt, xcsv), the theorems "
+       "being token level (csv_roundtrip) + per token + character set. "
        "'Reproduces the data' therefore means: structure, labels, indices exactly; each value as the correctly rounded decimal with 11 "
        "(CSV) / 6 (LibSVM) significant digits read by spirit (two roundings for |exponent| > 22) — exact for integers and short decimals, "
        "not bit-exact in general; separators that are characters of a number (digits - + . e, and E after a plain %g number) are "
@@ -540,10 +548,11 @@ def gen_csv1(r, ctx=None):
     return ty, maxb, out.encode()
 
 
-def csv1_op(ty, maxb, data, ctx=None):
+def csv1_op(ty, maxb, data, ctx=None, r=None):
     m = mode_of(data, float_scalar=(ty == "f32"))
     if ctx: ctx.hist("mode", m)
-    return f"csv1 {ty} {ord('#')} {maxb} {m} {hx(data)}"
+    pre = reuse_prefix(r, ctx) if r is not None else ""
+    return pre + f"csv1 {ty} {ord('#')} {maxb} {m} {hx(data)}"
 
 
 def gen_rt(r, ctx=None):
@@ -736,11 +745,11 @@ def run(ctx):
         for _ in range(8):
             if EXPONENT_RANGE_REPAIRED or not exp_out_of_range(data, ty == "f32"): break
             ty, maxb, data = gen_csv1(r, ctx)
-        cases.append([csv1_op(ty, maxb, data, ctx)])
+        cases.append([csv1_op(ty, maxb, data, ctx, r)])
     for _ in range(nmut // 5):
         ty, maxb, data = gen_csv1(r)
         data = avoid_f11(ctx, lambda: mutate(r, data, ctx), ty == "f32")
-        cases.append([csv1_op(ty, maxb, data, ctx)])
+        cases.append([csv1_op(ty, maxb, data, ctx, r)])
     nrt = 300 if ctx.quick else 3000
     cases += [[gen_rt(r, ctx)] for _ in range(nrt)]
     for _ in range(nexp):
